@@ -10,6 +10,8 @@ pub struct RelocInfo {
     pub relative: Vec<(u64, u64)>,
     /// ET_DYN without PT_INTERP: relocated by tiny-start itself
     pub self_relocating: bool,
+    /// the relative relocations come from a DT_REL table (addend = the word stored at the slot in the file)
+    pub rel_format: bool,
     /// addresses of the compiler-generated `DW.ref.*` pointers (writable section, never written by any program)
     pub never_written: Vec<u64>,
 }
@@ -60,6 +62,7 @@ pub fn read(path: &str) -> Option<RelocInfo> {
     let to_off = |va: u64| loads.iter().find(|(v, _, f)| va >= *v && va < v + f).map(|(v, o, _)| (va - v + o) as usize);
     if let Some((doff, dsz)) = dynamic {
         let (mut rela, mut relasz, mut relaent) = (0u64, 0u64, 24u64);
+        let (mut rel, mut relsz, mut relent) = (0u64, 0u64, 16u64);
         let mut i = doff as usize;
         while i + 16 <= (doff + dsz) as usize {
             let (tag, val) = (u64at(&b, i)?, u64at(&b, i + 8)?);
@@ -68,6 +71,9 @@ pub fn read(path: &str) -> Option<RelocInfo> {
                 7 => rela = val,
                 8 => relasz = val,
                 9 => relaent = val,
+                17 => rel = val,
+                18 => relsz = val,
+                19 => relent = val,
                 _ => {}
             }
             i += 16;
@@ -79,6 +85,19 @@ pub fn read(path: &str) -> Option<RelocInfo> {
                 let (r_offset, r_info, r_addend) = (u64at(&b, p)?, u64at(&b, p + 8)?, u64at(&b, p + 16)?);
                 if r_info & 0xffff_ffff == 8 {
                     info.relative.push((r_offset, r_addend));
+                }
+            }
+        }
+        if rel != 0 && relent >= 16 {
+            let start = to_off(rel)?;
+            for k in 0..(relsz / relent) as usize {
+                let p = start + k * relent as usize;
+                let (r_offset, r_info) = (u64at(&b, p)?, u64at(&b, p + 8)?);
+                if r_info & 0xffff_ffff == 8 {
+                    // implicit addend: what the link editor stored at the slot
+                    let addend = u64at(&b, to_off(r_offset)?)?;
+                    info.relative.push((r_offset, addend));
+                    info.rel_format = true;
                 }
             }
         }
